@@ -1,7 +1,6 @@
 /-
   C04 — property theorems (every `theorem` here is one audited proof obligation).
-  `fixed = true`  : `_defineOwnProperty` after fixes/C04-defineOwnProperty-kind-change.diff
-  `fixed = false` : `_defineOwnProperty` as it stands in /repo (object.go:650)
+  The mechanism model transcribes /repo's current code (with the fix commits d72dab1, f4bc093).
   Values/functions are an ARBITRARY type `V` with decidable equality (SameValue = SameAs = equality: assumption).
 -/
 import GojaModel.C04.LemmasDefine2
@@ -13,38 +12,21 @@ set_option linter.unusedVariables false
 
 /-! ### DefineOwn -/
 
-/-- `_defineOwnProperty` (fixed) = ValidateAndApplyPropertyDescriptor, for ALL existing slots (absent, plain value,
+/-- `_defineOwnProperty` = ValidateAndApplyPropertyDescriptor, for ALL existing slots (absent, plain value,
 any `*valueProperty` satisfying the representation invariant), ALL well-formed partial descriptors, both
 extensibilities; values abstract. -/
 theorem defineOwn_refines_spec {V} [DecidableEq V] (undef : V) (existing : Option (Stored V)) (d : Desc V) (ext : Bool)
     (hw : d.wellFormed = true) (hinv : ∀ s, existing = some s → s.repInv = true) :
-    (defineOwn true undef existing d ext).map (absProp undef) =
+    (defineOwn undef existing d ext).map (absProp undef) =
       validateAndApply undef (existing.map (absProp undef)) d ext :=
-  (cell_any true undef existing d ext hw hinv (Or.inl rfl)).1
+  (cell_any undef existing d ext hw hinv).1
 
 /-- … and its result satisfies the representation invariant again (so the hypothesis of the previous theorem is an
 invariant of every history of defines/sets). -/
 theorem defineOwn_preserves_repInv {V} [DecidableEq V] (undef : V) (existing : Option (Stored V)) (d : Desc V) (ext : Bool)
     (hw : d.wellFormed = true) (hinv : ∀ s, existing = some s → s.repInv = true) :
-    ∀ s, defineOwn true undef existing d ext = some s → s.repInv = true :=
-  (cell_any true undef existing d ext hw hinv (Or.inl rfl)).2
-
-/-- PARTIAL (current code): the same two statements hold for the code as it stands on every cell that does not change
-the KIND of an existing property (data ↔ accessor).  What is missing: the kind-changing cells — see the two witnesses. -/
-theorem defineOwn_cur_refines_spec_partial {V} [DecidableEq V] (undef : V) (existing : Option (Stored V)) (d : Desc V)
-    (ext : Bool) (hw : d.wellFormed = true) (hinv : ∀ s, existing = some s → s.repInv = true)
-    (hk : kindChange existing d = false) :
-    (defineOwn false undef existing d ext).map (absProp undef) =
-        validateAndApply undef (existing.map (absProp undef)) d ext
-    ∧ ∀ s, defineOwn false undef existing d ext = some s → s.repInv = true :=
-  cell_any false undef existing d ext hw hinv (Or.inr hk)
-
-/-- The two variants are the same function off the kind-changing cells. -/
-theorem defineOwn_cur_eq_fixed_off_kind_change {V} [DecidableEq V] (undef : V) (existing : Option (Stored V)) (d : Desc V)
-    (ext : Bool) (hw : d.wellFormed = true) (hinv : ∀ s, existing = some s → s.repInv = true)
-    (hk : kindChange existing d = false) :
-    (defineOwn false undef existing d ext).map (absProp undef) = (defineOwn true undef existing d ext).map (absProp undef) := by
-  rw [(cell_any false undef existing d ext hw hinv (Or.inr hk)).1, (cell_any true undef existing d ext hw hinv (Or.inl rfl)).1]
+    ∀ s, defineOwn undef existing d ext = some s → s.repInv = true :=
+  (cell_any undef existing d ext hw hinv).2
 
 def nonConfigData : Stored Nat :=
   .prop { value := some 1, writable := false, configurable := false, enumerable := false, accessor := false,
@@ -54,17 +36,17 @@ def descGetUndefined : Desc Nat :=
 def descGetF : Desc Nat :=
   { value := none, writable := .notSet, enumerable := .notSet, configurable := .notSet, getter := some (some 7), setter := none }
 
-/-- WITNESS (current code, defect D1): `Object.defineProperty(o,'x',{value:1}); Object.defineProperty(o,'x',{get:undefined})`
-— the spec rejects (non-configurable data → accessor), the current code accepts and turns the property into an accessor. -/
-theorem defineOwn_cur_kind_change_witness :
-    ¬ ((defineOwn false 0 (some nonConfigData) descGetUndefined true).map (absProp 0) =
+/-- REGRESSION WITNESS (code before d72dab1): `Object.defineProperty(o,'x',{value:1}); Object.defineProperty(o,'x',{get:undefined})`
+— the spec rejects (non-configurable data → accessor), the old code accepted and turned the property into an accessor. -/
+theorem defineOwn_kind_change_prefix_witness :
+    ¬ ((defineOwnPre 0 (some nonConfigData) descGetUndefined true).map (absProp 0) =
         validateAndApply 0 ((some nonConfigData).map (absProp 0)) descGetUndefined true) := by
   decide
 
-/-- WITNESS (current code, defect D2): `o = {x:1}; Object.defineProperty(o,'x',{get:f})` leaves `writable = true` on the
-accessor: the representation invariant that `isWritable()` relies on is broken (`Reflect.set(o,'x',5)` then returns true). -/
-theorem defineOwn_cur_repInv_witness :
-    ¬ (∀ s, defineOwn false 0 (some (.plain 1)) descGetF true = some s → s.repInv = true) := by
+/-- REGRESSION WITNESS (code before d72dab1): `o = {x:1}; Object.defineProperty(o,'x',{get:f})` left `writable = true` on
+the accessor: the representation invariant that `isWritable()` relies on was broken. -/
+theorem defineOwn_repInv_prefix_witness :
+    ¬ (∀ s, defineOwnPre 0 (some (.plain 1)) descGetF true = some s → s.repInv = true) := by
   decide
 
 /-! ### SetPath -/
@@ -72,10 +54,10 @@ theorem defineOwn_cur_repInv_witness :
 /-- The three hand-written copies (string / index / symbol keys) of `Object.set*` + `setOwn*` + `setForeign*` are the
 same function of the abstract key, for every prototype chain and receiver (index copy: given that `idxPropCount = 0`
 means "no index-named own property", which `propOrder_idxCount` provides). -/
-theorem setStr_eq_setIdx_eq_setSym {V} [DecidableEq V] (fixed : Bool) (undef : V) (mv : MView V) (hc : IdxCountOk mv)
+theorem setStr_eq_setIdx_eq_setSym {V} [DecidableEq V] (undef : V) (mv : MView V) (hc : IdxCountOk mv)
     (chain : List Nat) (v : V) (r : Recv) :
-    (∀ k, objSetSym fixed undef mv chain k v r = objSetStr fixed undef mv chain k v r) ∧
-    (∀ n, objSetIdx fixed undef mv chain (.idx n) v r = objSetStr fixed undef mv chain (.idx n) v r) := by
+    (∀ k, objSetSym undef mv chain k v r = objSetStr undef mv chain k v r) ∧
+    (∀ n, objSetIdx undef mv chain (.idx n) v r = objSetStr undef mv chain (.idx n) v r) := by
   constructor
   · intro k
     cases chain with
@@ -91,13 +73,13 @@ theorem setStr_eq_setIdx_eq_setSym {V} [DecidableEq V] (fixed : Bool) (undef : V
       rfl
 
 /-- `Object.set` (all three copies) refines OrdinarySet with Receiver over ARBITRARY prototype chains and receivers
-(receiver on the chain, off the chain, or a primitive), for both variants of `_defineOwnProperty`, given the
+(receiver on the chain, off the chain, or a primitive), given the
 representation invariant. -/
-theorem set_refines_OrdinarySet {V} [DecidableEq V] (fixed : Bool) (undef : V) (mv : MView V) (hinv : RepInvView mv)
+theorem set_refines_OrdinarySet {V} [DecidableEq V] (undef : V) (mv : MView V) (hinv : RepInvView mv)
     (hc : IdxCountOk mv) (o : Nat) (rest : List Nat) (k : Key) (v : V) (r : Recv) :
-    (objSet fixed undef mv (o :: rest) k v r).map (absProp undef) =
+    (objSet undef mv (o :: rest) k v r).map (absProp undef) =
       ordinarySet undef (mv.abs undef) (o :: rest) k v r := by
-  have hstr : (objSetStr fixed undef mv (o :: rest) k v r).map (absProp undef) =
+  have hstr : (objSetStr undef mv (o :: rest) k v r).map (absProp undef) =
       ordinarySet undef (mv.abs undef) (o :: rest) k v r := by
     rw [objSetStr_unfold]
     have haux := setStr_refines_aux undef mv hinv k v (o :: rest)
@@ -114,8 +96,8 @@ theorem set_refines_OrdinarySet {V} [DecidableEq V] (fixed : Bool) (undef : V) (
         rw [hf] at hF
         simp only at hF
         rw [hF]
-        exact recv_define_refines fixed undef mv hinv k v r
-  have heq := setStr_eq_setIdx_eq_setSym fixed undef mv hc (o :: rest) v r
+        exact recv_define_refines undef mv hinv k v r
+  have heq := setStr_eq_setIdx_eq_setSym undef mv hc (o :: rest) v r
   cases k with
   | idx n => simp only [objSet]; rw [heq.2 n]; exact hstr
   | sym n => simp only [objSet]; rw [heq.1 (.sym n)]; exact hstr
